@@ -156,6 +156,10 @@ def corpus(rng, b=0):
         if rng.random() < 0.12:
             s += rng.choice(gen.INVALID)          # a failing call next to succeeding ones
         dec.append(s)
+    if b % 3 == 1:
+        # a call that fails *inside* first-sight symbol parsing (int() refuses > 4300 digits): whatever
+        # that code path holds (a lock, a half-made cache entry) when it raises stays behind for the others
+        dec[rng.randrange(3, 8)] = "".join(novel[:2]) + "[C]" + gen.HUGE_ISOTOPE + "[O]"
     # the same novel symbols in every string's head: first-sight races
     dec.append("".join(novel) + "[C][Ring1][Ring1]")
     dec.append("[C]" + "".join(reversed(novel)) + "[=C][F]")
